@@ -8,7 +8,7 @@ open OPM OPM.Wire OPM.CmdMgr
 /-!
 ops (tab separated), see `harness/cmdmgr.py`:
   `cfg <durs> <fails> <overlaps> <variant>`  variant = two digits: fixCancel fixInstr
-  `req <k>` · `user start|stop|restart` · `tick` · `cancel <id>` · `force <id>` · `sim <j>`
+  `req <k>` · `user start|stop|restart` · `tick` · `cancel <id>` · `force <id>` · `sim <j>` · `pause 0|1`
 answer: `<reply> | ev=… ex=… qu=… in=… tr=… st=… sys=… run=… sim=… rs=… stop=…`
 -/
 
@@ -72,7 +72,7 @@ def obs (d : DState) : DState × String :=
   let run := match s.runId with | none => "-" | some n => toString n
   let txt := s!"ev={ev} ex={join "," (s.executing.map showReq)} qu={join "," (s.queue.map showReq)} " ++
     s!"in={join "," (live.map showCmd)} tr={showTracks s.track} " ++
-    s!"st={showBool s.started}{showBool s.stopping}{showBool s.tracking} sys={sys} run={run} " ++
+    s!"st={showBool s.started}{showBool s.stopping}{showBool s.tracking}{showBool s.paused} sys={sys} run={run} " ++
     s!"sim={join "," ((List.range 8).filter (s.simulated.contains ·) |>.map toString)} rs={s.resets} " ++
     s!"stop={if stops.isEmpty then "none" else "/".intercalate (stops.map showTracks)}"
   ({ d with seenEv := s.events.length, seenStop := s.stopLog.length }, txt)
@@ -113,6 +113,7 @@ def step (d : DState) (line : String) : DState × String :=
   | ["tick"] => apply d .tick
   | ["cancel", i] => match i.toNat? with | some i => apply d (.cancel i) | none => (d, "bad-op")
   | ["force", i] => match i.toNat? with | some i => apply d (.force i) | none => (d, "bad-op")
+  | ["pause", b] => match parseBool b with | some b => apply d (.pause b) | none => (d, "bad-op")
   | ["chk"] =>
     -- evaluates the invariants of `OPM.Model.CmdMgrSpec` on the current state and on the next tick
     let s := d.s
